@@ -12,8 +12,12 @@ func indexOf(refs []int, ref int) (int, bool) {
 
 // deleteRef - is a slice trick to remove an item with preserving items order
 // Note: danger modifies pointer to the arr
+// deleteRef removes the ref at index. The shortened list is a new array: a walker may be
+// ranging over the old one (e.g. the directives of a node while a visitor removes one of
+// them); shifting the refs in place would make it skip the ref that moves into the freed
+// slot and visit the last one twice.
 func deleteRef(refs *[]int, index int) {
-	*refs = append((*refs)[:index], (*refs)[index+1:]...)
+	*refs = append((*refs)[:index:index], (*refs)[index+1:]...)
 }
 
 // Splits byte slices into lines based on line terminators (\n, \r, \r\n)
